@@ -17,6 +17,7 @@ package util
 //@ // the value clause (result == pubkeyOf(account)) is assumed, the safety obligations of the body are proved
 //@ func ValidatorPubkey
 //@   trusted
+//@   lockfree
 //@   requires account != nil
 //@   ensures result == pubkeyOf(account)
 //@   modifies nothing
